@@ -1065,3 +1065,27 @@ def c_reorder_to_pairs(seed):
         return env
     return Case('dd.bdd.reorder_to_pairs', seed, build, lambda e: _dd().reorder_to_pairs(e['b'], e['pairs']),
                 lambda e: dict(bdd=None, pairs=zdict(e['pairs'], 'name', 'name')), lambda e: dict(call='reorder_to_pairs', pairs=e['pairs']))
+
+
+@case('dd.bdd.BDD._sat_len')
+def c_sat_len(seed):
+    def build(rnd):
+        env = new_manager(rnd)
+        b = env['b']
+        u = any_ref(env, rnd)
+        levels = sorted(b.support(u, as_levels=True))
+        slack = rnd.randint(0, 2)
+        n = len(levels) + slack
+        ml = {old: new + slack for new, old in enumerate(levels)}
+        ml[b._succ[1][0]] = n
+        env.update(u=u, ml_levels=dict(ml), n=n, d=dict())
+        ml['all'] = n
+        env['map_level'] = ml
+        return env
+
+    def za(e):
+        mlz = zdict(e['ml_levels'], 'int', 'int')
+        mlz.extra = {'all': IntVal(e['n'])}
+        return dict(self=None, u=zint(e['u']), map_level=mlz, d=zdict({}, 'int', 'int'))
+    return Case('dd.bdd.BDD._sat_len', seed, build, lambda e: e['b']._sat_len(e['u'], e['map_level'], e['d']), za,
+                lambda e: dict(call='_sat_len', u=e['u'], map_level=e['map_level']), muts=memo_muts('d', lambda d: zdict(d, 'int', 'int')))
